@@ -104,18 +104,22 @@ theorem stepReg_coherent (env : Env) (h : Heap) (op : String) (cur : Val) (r : R
 /-! ### one iteration of the loop -/
 
 theorem tLoop2_step (env : Env) (hwf : WF2 env = true) (h : Heap) (flat : List Val) (i : Nat)
-    (cur : Val) (tr : List (Nat × Val)) (r : Reg) (hc : r.coherent env.k.ct = true)
+    (cur : Val) (tr : List (Nat × Val)) (r : Reg) (lg : List Nat) (hc : r.coherent env.k.ct = true)
     (op : String) (arg : Val)
     (hlt : i < flat.length) (hop : flat[i]? = some (.str op)) (harg : flat[i+1]? = some arg)
     (hw : wfSteps [(op, arg)] = true) :
-    tLoop2 env h flat i cur tr r =
+    tLoop2 env h flat i cur tr r lg =
       match refStep env r.tbl h op cur arg with
       | .ok v => tLoop2 env h flat (i + 2) v (tr ++ [(i / 2, cur)]) (stepReg env h op cur r)
-      | .fail e => ⟨.error (.pae (i / 2) e), tr ++ [(i / 2, cur)], stepReg env h op cur r⟩
-      | .escapes e => ⟨.error (.raised e), tr ++ [(i / 2, cur)], stepReg env h op cur r⟩
-      | .beyond => ⟨.error .beyond, tr ++ [(i / 2, cur)], stepReg env h op cur r⟩
-      | .noHandler => ⟨.error .unregistered, tr, stepReg env h op cur r⟩
-      | .notAccess => ⟨.error .badSpec, tr, stepReg env h op cur r⟩ := by
+          (lg ++ refLog env r.tbl h op cur arg)
+      | .fail e => ⟨.error (.pae (i / 2) e), tr ++ [(i / 2, cur)], stepReg env h op cur r,
+          lg ++ refLog env r.tbl h op cur arg⟩
+      | .escapes e => ⟨.error (.raised e), tr ++ [(i / 2, cur)], stepReg env h op cur r,
+          lg ++ refLog env r.tbl h op cur arg⟩
+      | .beyond => ⟨.error .beyond, tr ++ [(i / 2, cur)], stepReg env h op cur r,
+          lg ++ refLog env r.tbl h op cur arg⟩
+      | .noHandler => ⟨.error .unregistered, tr, stepReg env h op cur r, lg⟩
+      | .notAccess => ⟨.error .badSpec, tr, stepReg env h op cur r, lg⟩ := by
   obtain ⟨h1, h2, h3, _⟩ := WF2_parts hwf
   obtain ⟨c1, hd1, hk1⟩ := catches2_dispatch h1
   obtain ⟨c2, hd2, hk2⟩ := catches2_dispatch h2
@@ -126,10 +130,11 @@ theorem tLoop2_step (env : Env) (hwf : WF2 env = true) (h : Heap) (flat : List V
   obtain ⟨hops, _⟩ := hw
   rcases hops with (rfl | rfl) | rfl
   · -- "."
-    have hp : env.prim h "getattr" cur arg r = .ran (pyGetattr2 env.k h cur arg) r := by
+    have hp : env.prim h "getattr" cur arg r =
+        .ran (pyGetattr2 env.k h cur arg) (attrLog env.k h cur arg) r := by
       simp [Env.prim]
     have hs : stepReg env h "." cur r = r := by simp [stepReg]
-    simp only [hd1, hp, hs, refStep, beq_self_eq_true, if_true]
+    simp only [hd1, hp, hs, refStep, refLog, beq_self_eq_true, if_true]
     cases pyGetattr2 env.k h cur arg with
     | ok v => simp [classify]
     | beyond => simp [classify]
@@ -137,11 +142,12 @@ theorem tLoop2_step (env : Env) (hwf : WF2 env = true) (h : Heap) (flat : List V
       simp only [classify, hk1 e]
       cases env.isKind (lookupKinds ".") e <;> simp
   · -- "["
-    have hp : env.prim h "getitem" cur arg r = .ran (pyGetitem2 env.k h cur arg) r := by
+    have hp : env.prim h "getitem" cur arg r =
+        .ran (pyGetitem2 env.k h cur arg) (itemLog env.k h cur) r := by
       simp [Env.prim]
     have hs : stepReg env h "[" cur r = r := by simp [stepReg]
     have hne : ("[" == ".") = false := by decide
-    simp only [hd2, hp, hs, refStep, hne, beq_self_eq_true, if_true]
+    simp only [hd2, hp, hs, refStep, refLog, hne, beq_self_eq_true, if_true]
     simp only [Bool.false_eq_true, if_false]
     cases pyGetitem2 env.k h cur arg with
     | ok v => simp [classify]
@@ -155,12 +161,12 @@ theorem tLoop2_step (env : Env) (hwf : WF2 env = true) (h : Heap) (flat : List V
       simp [stepReg]
     have hne1 : ("P" == ".") = false := by decide
     have hne2 : ("P" == "[") = false := by decide
-    simp only [hd3, hs, refStep, hne1, hne2, beq_self_eq_true, if_true]
+    simp only [hd3, hs, refStep, refLog, hne1, hne2, beq_self_eq_true, if_true]
     simp only [Bool.false_eq_true, if_false]
     rw [← hg1]
     have hp : env.prim h "handler" cur arg r =
         match r.getHandler env.k.ct (cur.clsName h) with
-        | (some hn, r') => .ran (env.applyHandler h hn cur arg) r'
+        | (some hn, r') => .ran (env.applyHandler h hn cur arg) (env.handlerLog h hn cur arg) r'
         | (none, r') => .unregistered r' := by
       have e1 : ("handler" == "getattr") = false := by decide
       have e2 : ("handler" == "getitem") = false := by decide
@@ -217,43 +223,84 @@ theorem walkReg_coherent (env : Env) (h : Heap) :
 
 theorem tLoop2_eq_walk2 (env : Env) (hwf : WF2 env = true) (h : Heap) (root : Val)
     (rest : List (String × Val)) :
-    ∀ (pre : List (String × Val)) (cur : Val) (tr : List (Nat × Val)) (r : Reg),
+    ∀ (pre : List (String × Val)) (cur : Val) (tr : List (Nat × Val)) (r : Reg) (lg : List Nat),
     wfSteps rest = true → r.coherent env.k.ct = true →
-    tLoop2 env h (root :: flatOfSteps (pre ++ rest)) (1 + 2 * pre.length) cur tr r =
+    tLoop2 env h (root :: flatOfSteps (pre ++ rest)) (1 + 2 * pre.length) cur tr r lg =
       ⟨resOfWalk (walk2 env r.tbl h rest pre.length cur),
        tr ++ walkTouched2 env r.tbl h rest pre.length cur,
-       walkReg env h rest cur r⟩ := by
+       walkReg env h rest cur r,
+       lg ++ walkLog2 env r.tbl h rest cur⟩ := by
   induction rest with
   | nil =>
-    intro pre cur tr r _ _
+    intro pre cur tr r lg _ _
     rw [tLoop2]
     simp only [List.append_nil]
     have : ¬ (1 + 2 * pre.length < (root :: flatOfSteps pre).length) := by
       rw [flat_length]; simp
-    simp only [this, dite_false, walk2, walkTouched2, resOfWalk, walkReg, List.append_nil]
+    simp only [this, dite_false, walk2, walkTouched2, walkLog2, resOfWalk, walkReg, List.append_nil]
   | cons s rest ih =>
     obtain ⟨op, arg⟩ := s
-    intro pre cur tr r hw hc
+    intro pre cur tr r lg hw hc
     obtain ⟨hw1, hw2⟩ := wfSteps_cons hw
     have hlt : 1 + 2 * pre.length < (root :: flatOfSteps (pre ++ (op, arg) :: rest)).length := by
       rw [flat_length]; simp
-    rw [tLoop2_step env hwf h _ _ cur tr r hc op arg hlt (flat_get_op ..) (flat_get_arg ..) hw1]
+    rw [tLoop2_step env hwf h _ _ cur tr r lg hc op arg hlt (flat_get_op ..) (flat_get_arg ..) hw1]
     have hdiv : (1 + 2 * pre.length) / 2 = pre.length := by omega
     rw [hdiv]
     obtain ⟨ht, hc'⟩ := stepReg_coherent env h op cur r hc
-    simp only [walk2, walkTouched2, walkReg]
+    simp only [walk2, walkTouched2, walkReg, walkLog2]
     cases hr : refStep env r.tbl h op cur arg with
     | ok v =>
       simp only
-      have := ih (pre ++ [(op, arg)]) v (tr ++ [(pre.length, cur)]) (stepReg env h op cur r) hw2 hc'
+      have := ih (pre ++ [(op, arg)]) v (tr ++ [(pre.length, cur)]) (stepReg env h op cur r)
+        (lg ++ refLog env r.tbl h op cur arg) hw2 hc'
       simp only [List.append_assoc, List.singleton_append, List.length_append,
         List.length_singleton] at this
       rw [show 1 + 2 * pre.length + 2 = 1 + 2 * (pre.length + 1) by omega, this, ht]
     | fail e => simp [resOfWalk]
     | escapes e => simp [resOfWalk]
     | beyond => simp [resOfWalk]
-    | noHandler => simp [resOfWalk]
-    | notAccess => simp [resOfWalk]
+    | noHandler =>
+      have hl : refLog env r.tbl h op cur arg = [] := by
+        unfold refStep at hr
+        unfold refLog
+        split at hr
+        · cases hh : pyGetattr2 env.k h cur arg <;> rw [hh] at hr <;> simp [classify] at hr
+          split at hr <;> contradiction
+        · split at hr
+          · cases hh : pyGetitem2 env.k h cur arg <;> rw [hh] at hr <;> simp [classify] at hr
+            split at hr <;> contradiction
+          · split at hr
+            · rename_i h1 h2 h3
+              simp only [h1, h2, h3, if_true, Bool.false_eq_true, if_false]
+              split
+              · rename_i hn hnn
+                rw [hnn] at hr
+                simp only at hr
+                cases hh : env.applyHandler h hn cur arg <;> rw [hh] at hr <;> simp [classify] at hr
+                split at hr <;> contradiction
+              · rfl
+            · contradiction
+      simp [resOfWalk, hl]
+    | notAccess =>
+      have hl : refLog env r.tbl h op cur arg = [] := by
+        unfold refStep at hr
+        unfold refLog
+        split at hr
+        · cases hh : pyGetattr2 env.k h cur arg <;> rw [hh] at hr <;> simp [classify] at hr
+          split at hr <;> contradiction
+        · split at hr
+          · cases hh : pyGetitem2 env.k h cur arg <;> rw [hh] at hr <;> simp [classify] at hr
+            split at hr <;> contradiction
+          · split at hr
+            · split at hr
+              · rename_i hn hnn
+                cases hh : env.applyHandler h hn cur arg <;> rw [hh] at hr <;> simp [classify] at hr
+                split at hr <;> contradiction
+              · contradiction
+            · rename_i h1 h2 h3
+              simp [h1, h2, h3]
+      simp [resOfWalk, hl]
 
 /-! ### characterisation of the reference walk -/
 
